@@ -326,12 +326,15 @@ def pop_order(h, callee_regex):
         ps = pops_in(e)
         if len(ps) == 1:
             bind_all(pat, ps[0])
+        elif not ps and isinstance(e0, dict) and e0.get("k") == "path" and (e0.get("res") or {}).get("dk") == "Local" and e0["res"].get("id") in bind_pop:
+            bind_all(pat, bind_pop[e0["res"]["id"]])     # `match right { Term(right_term) => ..` : destructuring a popped value again
 
-    for m in find_all(h["body"], lambda z: z.get("k") == "match" and not str(z.get("src", "")).startswith("TryDesugar")):
-        for arm in m["arms"]:
-            assoc(arm["pat"], m["scrut"])
-    for l_ in find_all(h["body"], lambda z: z.get("k") in ("let", "letexpr") and z.get("init") is not None and isinstance(z.get("pat"), dict)):
-        assoc(l_["pat"], l_["init"])
+    for _ in range(3):
+        for m in find_all(h["body"], lambda z: z.get("k") == "match" and not str(z.get("src", "")).startswith("TryDesugar")):
+            for arm in m["arms"]:
+                assoc(arm["pat"], m["scrut"])
+        for l_ in find_all(h["body"], lambda z: z.get("k") in ("let", "letexpr") and z.get("init") is not None and isinstance(z.get("pat"), dict)):
+            assoc(l_["pat"], l_["init"])
     out = []
     for c in find_all(h["body"], lambda z: calls_path(z, callee_regex)):
         args = c.get("args", [])
@@ -436,3 +439,36 @@ def eval_pure(node, env, consts):
         return ev(node)
     except _Ret as r:
         return r.v
+
+
+# ----------------------------------------------------------------------------------------------- immutable place aliases
+def place_lets(h):
+    """{binding id: initialiser} for `let x = <place>;` (immutable, the place a chain of fields / & / * over a variable):
+    `let version = block.version;` - x is another name for that place as long as nothing is assigned to it"""
+    out = {}
+    for l in find_all(h["body"], lambda z: z.get("k") == "let" and isinstance(z.get("pat"), dict) and z["pat"].get("k") == "bind" and not z["pat"].get("sub") and z.get("init") is not None and z.get("els") is None):
+        if "Mut" in str(l["pat"].get("mode", "")).split(",")[-1]:
+            continue
+        e = l["init"]
+        while isinstance(e, dict) and (e.get("k") in ("addr", "use", "paren") or (e.get("k") == "unary" and e.get("op") == "Deref")):
+            e = e.get("e") if e.get("k") != "unary" else e.get("a")
+        n_fields = 0
+        while isinstance(e, dict) and e.get("k") == "field":
+            n_fields += 1
+            e = e.get("e")
+            while isinstance(e, dict) and (e.get("k") in ("addr", "use", "paren") or (e.get("k") == "unary" and e.get("op") == "Deref")):
+                e = e.get("e") if e.get("k") != "unary" else e.get("a")
+        if n_fields and isinstance(e, dict) and e.get("k") == "path" and (e.get("res") or {}).get("dk") == "Local":
+            out[l["pat"]["id"]] = l["init"]
+    return out
+
+
+def expand_places(node, lets, depth=0):
+    """node with every use of such a variable replaced by the place it names"""
+    if isinstance(node, list):
+        return [expand_places(v, lets, depth) for v in node]
+    if not isinstance(node, dict):
+        return node
+    if node.get("k") == "path" and (node.get("res") or {}).get("dk") == "Local" and node["res"].get("id") in lets and depth < 4:
+        return expand_places(lets[node["res"]["id"]], lets, depth + 1)
+    return {k: expand_places(v, lets, depth) for k, v in node.items()}
